@@ -3,6 +3,7 @@
 //! (a) exhibits a concrete failing input for an obligation the verifier failed to discharge, and
 //! (b) checks, on every run, the stated assumptions about external code (logos) on enumerated inputs.
 mod lexer;
+mod front;
 mod numeric;
 mod json;
 
@@ -14,6 +15,9 @@ fn main() {
         | "lexer-a1" => lexer::assumption_a1(rest),
         | "lexer-witness" => lexer::witness(rest),
         | "lexer-replay" => lexer::replay(rest),
+        | "front-witness" => front::witness(rest),
+        | "front-replay" => front::replay(rest),
+        | "front-a3" => front::assumption_a3(rest),
         | "numeric-witness" => numeric::witness(rest),
         | "numeric-replay" => numeric::replay(rest),
         | _ => {
